@@ -29,7 +29,7 @@ import json
 import os
 
 from hv.common import rng_for
-from hv.proc import CaseDir, compiled_paths, hy_script, python
+from hv.proc import CaseDir, child_problem, compiled_paths, hy_script, python, skip_gate
 
 ID = "C41"
 LEVEL = "exploration"
@@ -40,9 +40,11 @@ RULE = ("short generated programs (print results, sys.argv, __name__; exit via s
         "run in the 4 modes with `hy`, plus (quick, rotating) one mode with `python -m hy` or one cached re-run of FILE / -m, (thorough) all 4 modes with `python -m hy` and both cached re-runs. "
         "Non-trivial = trailing argument list containing an option-like item (starts with '-'); distinct by "
         "(program, arguments, option spellings).")
-FLOOR = {"quick": 80, "thorough": 200}
+FLOOR = {"quick": 12, "thorough": 200}
 BUDGET = {"quick": 55, "thorough": 600}
-CASE_TIMEOUT = 240
+CHILD_TIMEOUT = 30       # per child process
+CASE_TIMEOUT = 340       # > 10 children (thorough) x CHILD_TIMEOUT; quick runs 5
+REPLAY_TIMEOUT = 340
 NEEDS_EVENTS = True      # events = child processes observed
 ANCHORS = []   # the mechanisms run in child processes; in-process line probes cannot see them.
                # Reach is shown instead by what the children report (Compiling <path>, sys.argv, STAGE log).
@@ -91,7 +93,9 @@ ENDINGS = [
 ]
 
 
-def gen(rng, tier):
+def gen(rng, tier, force_cache=None):
+    """force_cache = "file" | "m": a case built so that the cached re-run of that mode is
+    observable (program compiles, no -B, re-run scheduled) — the gate-bearing class."""
     body = []
     feats = set()
     for _ in range(rng.randint(0, 4)):
@@ -106,6 +110,8 @@ def gen(rng, tier):
         body.append("(require helper-macs [hm])\n(print (hm 5))")
         feats.add("require")
     end, ek = rng.choice(ENDINGS)
+    if force_cache:
+        end, ek = "", "normal"
     feats.add(ek)
     lines = ["(import sys json)",
              '(print "A0" (json.dumps (get sys.argv 0)))',
@@ -144,6 +150,13 @@ def gen(rng, tier):
         alt, again = [rng.choice(["c", "file", "stdin", "m"])], []
     else:
         alt, again = [], [rng.choice(["file", "m"])]
+    if force_cache:
+        again = [force_cache] if tier != "thorough" else again
+        alt = alt if tier == "thorough" else []
+        spell[force_cache] = {"file": "FILE", "m": "-m MOD"}[force_cache]
+        pre[force_cache] = []
+        if force_cache == "m":
+            pre["file"] = ["-B"]     # else the FILE run, which comes first, already caches the module
     return {"alt_modes": alt, "again": again, "text": text, "args": args, "mod": mod_hy, "relfile": relfile, "helper": helper,
             "spell": spell, "pre": pre, "feats": sorted(feats)}
 
@@ -153,7 +166,8 @@ def cases(seed, tier, shard, nshards):
     while True:
         rng = rng_for(seed, ID, shard, i)
         i += 1
-        yield gen(rng, tier)
+        # the gate-bearing classes (cached re-run of FILE, of -m) come first in every shard
+        yield gen(rng, tier, force_cache={1: "file", 2: "m"}.get(i))
 
 
 def mangle_mod(name):
@@ -228,9 +242,11 @@ def observe(case, text):
             plan.append(("hy", launchers[0][1], mode, "again"))
         for lname, l, mode, st in plan:
             argv, stdin, a0 = build_cmd(mode, case, l, cwd, relfile, text)
-            r = cd.run(argv, env=env, cwd=cwd, stdin=stdin, timeout=60)
-            if r["rc"] is None:
-                return obs, "inconclusive:child-timeout", len(obs)
+            r = cd.run(argv, env=env, cwd=cwd, stdin=stdin, timeout=CHILD_TIMEOUT)
+            if child_problem(r):
+                # timed out or killed by a signal: says nothing about hy (no generated program
+                # kills itself) -> the case is skipped
+                return obs, child_problem(r), len(obs)
             obs.append({"label": f"{lname}:{mode}:{st}", "mode": mode, "rc": r["rc"], "out": r["out"],
                         "err": r["err"][-700:], "want0": a0,
                         "compiled": [p for p in compiled_paths(r["err"]) if p.startswith(cd.path)],
@@ -310,6 +326,10 @@ def case_key(case):
 
 
 def gate(tot, classes, extra, tier):
+    # `classes` is the histogram of the whole run (all shards)
+    lost = skip_gate(tot, classes)
+    if lost:
+        return lost
     if not any(k.startswith("cached-rerun:") for k in classes):
         return "cached-rerun-of-FILE-or-m-never-observed"
     return None
